@@ -10,7 +10,7 @@ Position k of the packed vector therefore lands on the k-th allocated target of 
 import re
 
 from vf.extract import extract_item, match_brace, ExtractError
-from vf.unit import Unit, uniter_collect, unmap_iter_collect_general
+from vf.unit import Unit, uniter_collect, unmap_iter_collect_general, uniter_first
 from units.pack import PRELUDE as PACK_PRELUDE
 
 SPEC = r'''
@@ -432,6 +432,74 @@ pub struct HidingHashProofTargets { pub salts: Vec<Vec<Target>> }
         for f in fs:
             u.emit(f, vis='pub')
         u.text('} }')
+
+    # ------------------------------------------------------------------ HidingOpenedValuesTargets = Vec<Vec<Vec<Vec<Target>>>> (rounds -> matrices -> points -> random values)
+    u.text('''verus! {
+pub struct HidingOpenedValuesTargets { pub rounds: Vec<Vec<Vec<Vec<Target>>>> }
+pub open spec fn sh1(t: Seq<Vec<Target>>, v: Seq<Vec<Fv>>) -> bool { t.len() == v.len() && forall|p: int| 0 <= p < t.len() ==> (#[trigger] t[p])@.len() == v[p]@.len() }
+pub open spec fn sh2(t: Seq<Vec<Vec<Target>>>, v: Seq<Vec<Vec<Fv>>>) -> bool { t.len() == v.len() && forall|k: int| 0 <= k < t.len() ==> sh1((#[trigger] t[k])@, v[k]@) }
+pub open spec fn sh3(t: Seq<Vec<Vec<Vec<Target>>>>, v: Seq<Vec<Vec<Vec<Fv>>>>) -> bool { t.len() == v.len() && forall|r: int| 0 <= r < t.len() ==> sh2((#[trigger] t[r])@, v[r]@) }
+pub proof fn lemma_tvvv_prefix(a: Seq<Vec<Vec<Target>>>, b: Seq<Vec<Vec<Target>>>, n: int)
+    requires 0 <= n <= a.len(), n <= b.len(), forall|i: int| 0 <= i < n ==> a[i] == b[i] ensures flat_tvvv(a, n) == flat_tvvv(b, n) decreases n { if n > 0 { lemma_tvvv_prefix(a, b, n - 1); } }
+pub proof fn lemma_tvvv_push(v: Seq<Vec<Vec<Target>>>, x: Vec<Vec<Target>>) ensures flat_tvvv(v.push(x), v.len() as int + 1) == flat_tvvv(v, v.len() as int) + flat_vv(x@)
+{ lemma_tvvv_prefix(v.push(x), v, v.len() as int); }
+pub proof fn lemma_tvvvv_prefix(a: Seq<Vec<Vec<Vec<Target>>>>, b: Seq<Vec<Vec<Vec<Target>>>>, n: int)
+    requires 0 <= n <= a.len(), n <= b.len(), forall|i: int| 0 <= i < n ==> a[i] == b[i] ensures flat_tvvvv(a, n) == flat_tvvvv(b, n) decreases n { if n > 0 { lemma_tvvvv_prefix(a, b, n - 1); } }
+pub proof fn lemma_tvvvv_push(v: Seq<Vec<Vec<Vec<Target>>>>, x: Vec<Vec<Vec<Target>>>) ensures flat_tvvvv(v.push(x), v.len() as int + 1) == flat_tvvvv(v, v.len() as int) + flat_tvvv(x@, x@.len() as int)
+{ lemma_tvvvv_prefix(v.push(x), v, v.len() as int); }
+}''')
+    HOI = r'impl<EF: Field> Recursive<EF> for HidingOpenedValuesTargets<EF>'
+    on = u.extract(T, HOI, 'new', 'HidingOpenedValuesTargets::new')
+    on.set_sig('R11', 'fn new(circuit: &mut CircuitBuilder, input: &Vec<Vec<Vec<Vec<Fv>>>>) -> HidingOpenedValuesTargets')
+    on.rewrite_re('R12', r'\bSelf\s*\{', 'HidingOpenedValuesTargets {')
+    on.rewrite_re('R11', r',?\s*_phantom: PhantomData,?', '', min_count=0)
+    uniter_first(on)
+    unmap_iter_collect_general(on)
+    on.ensures('allocation_order_is_the_traversal_order', 'final(circuit).privs@ == old(circuit).privs@ + flat_tvvvv(ret.rounds@, ret.rounds@.len() as int) && final(circuit).pubs@ == old(circuit).pubs@')
+    on.ensures('one_target_per_random_value_at_every_point', 'sh3(ret.rounds@, input@)')
+    L0, L1, L2 = 'for m0_ in 0..input.len()', 'for m1_ in 0..round.len()', 'for m2_ in 0..matrix.len()'
+    if all(h in on.body for h in (L0, L1, L2)):
+        on.rewrite_re('SPEC-type', r'let mut v_m0_ = Vec::new\(\);', 'let mut v_m0_: Vec<Vec<Vec<Vec<Target>>>> = Vec::new();', min_count=1)
+        on.rewrite_re('SPEC-type', r'let mut v_m1_ = Vec::new\(\);', 'let mut v_m1_: Vec<Vec<Vec<Target>>> = Vec::new(); let ghost p1_ = circuit.privs@;', min_count=1)
+        on.rewrite_re('SPEC-type', r'let mut v_m2_ = Vec::new\(\);', 'let mut v_m2_: Vec<Vec<Target>> = Vec::new(); let ghost p2_ = circuit.privs@;', min_count=1)
+        for L, v, x in ((L2, 'v_m2_', 'x_m2_'), (L1, 'v_m1_', 'x_m1_'), (L0, 'v_m0_', 'x_m0_')):
+            lo = on._loop_open(L)
+            on.body = on.body[:lo + 1] + f' let ghost vb_{v} = {v}@; let ghost pb_{v} = circuit.privs@;' + on.body[lo + 1:]
+        on.at_loop_end(L2, 'proof { lemma_flat_vv_push(vb_v_m2_, x_m2_); assert(v_m2_@ =~= vb_v_m2_.push(x_m2_)); assert(circuit.privs@ =~= p2_ + flat_vv(v_m2_@)); '
+                           'assert forall|p: int| 0 <= p < m2_ + 1 implies (#[trigger] v_m2_@[p])@.len() == matrix@[p]@.len() by { if p < m2_ { assert(v_m2_@[p] == vb_v_m2_[p]); } } }')
+        on.at_loop_end(L1, 'proof { lemma_tvvv_push(vb_v_m1_, x_m1_); assert(v_m1_@ =~= vb_v_m1_.push(x_m1_)); assert(circuit.privs@ =~= p1_ + flat_tvvv(v_m1_@, m1_ + 1)); '
+                           'assert forall|k: int| 0 <= k < m1_ + 1 implies sh1((#[trigger] v_m1_@[k])@, round@[k]@) by { if k < m1_ { assert(v_m1_@[k] == vb_v_m1_[k]); } } }')
+        on.at_loop_end(L0, 'proof { lemma_tvvvv_push(vb_v_m0_, x_m0_); assert(v_m0_@ =~= vb_v_m0_.push(x_m0_)); assert(circuit.privs@ =~= old(circuit).privs@ + flat_tvvvv(v_m0_@, m0_ + 1)); '
+                           'assert forall|r: int| 0 <= r < m0_ + 1 implies sh2((#[trigger] v_m0_@[r])@, input@[r]@) by { if r < m0_ { assert(v_m0_@[r] == vb_v_m0_[r]); } } }')
+        on.loop(L2, invariants=[('points_so_far', 'v_m2_@.len() == m2_ && circuit.privs@ == p2_ + flat_vv(v_m2_@) && circuit.pubs@ == old(circuit).pubs@ && forall|p: int| 0 <= p < m2_ ==> (#[trigger] v_m2_@[p])@.len() == matrix@[p]@.len()')])
+        on.loop(L1, invariants=[('matrices_so_far', 'v_m1_@.len() == m1_ && circuit.privs@ == p1_ + flat_tvvv(v_m1_@, m1_ as int) && circuit.pubs@ == old(circuit).pubs@ && forall|k: int| 0 <= k < m1_ ==> sh1((#[trigger] v_m1_@[k])@, round@[k]@)')])
+        on.loop(L0, invariants=[('rounds_so_far', 'v_m0_@.len() == m0_ && circuit.privs@ == old(circuit).privs@ + flat_tvvvv(v_m0_@, m0_ as int) && circuit.pubs@ == old(circuit).pubs@ && forall|r: int| 0 <= r < m0_ ==> sh2((#[trigger] v_m0_@[r])@, input@[r]@)')])
+        on.before(L2, 'proof { assert(circuit.privs@ =~= p2_ + flat_vv(v_m2_@)); }')
+        on.before(L1, 'proof { assert(circuit.privs@ =~= p1_ + flat_tvvv(v_m1_@, 0)); }')
+        on.before(L0, 'proof { assert(circuit.privs@ =~= old(circuit).privs@ + flat_tvvvv(v_m0_@, 0)); }')
+    og = u.extract(T, HOI, 'get_private_values', 'HidingOpenedValuesTargets::get_private_values')
+    og.set_sig('R11', 'fn get_private_values(input: &Vec<Vec<Vec<Vec<Fv>>>>) -> Vec<Fv>')
+    uniter_collect(og)
+    og.ensures('values_in_the_traversal_order', 'ret@ == flat_vvvv(input@, input@.len() as int)')
+    G0, G1, G2, G3 = 'for i_input in 0..input.len()', 'for i_round in 0..round.len()', 'for i_matrix in 0..matrix.len()', 'for i_point_vals in 0..point_vals.len()'
+    if all(h in og.body for h in (G0, G1, G2, G3)):
+        og.rewrite_re('SPEC-type', r'let mut v0_ = Vec::new\(\);', 'let mut v0_: Vec<Fv> = Vec::new();', min_count=1)
+        og.loop(G3, invariants=[('values_of_this_point_so_far', 'v0_@ == flat_vvvv(input@, i_input as int) + flat_vvv(round@, i_round as int) + flat_vv(matrix@.take(i_matrix as int)) + point_vals@.take(i_point_vals as int) && *point_vals == matrix@[i_matrix as int] && *matrix == round@[i_round as int] && *round == input@[i_input as int]')])
+        og.loop(G2, invariants=[('points_so_far', 'v0_@ == flat_vvvv(input@, i_input as int) + flat_vvv(round@, i_round as int) + flat_vv(matrix@.take(i_matrix as int)) && *matrix == round@[i_round as int] && *round == input@[i_input as int]')])
+        og.loop(G1, invariants=[('matrices_so_far', 'v0_@ == flat_vvvv(input@, i_input as int) + flat_vvv(round@, i_round as int) && *round == input@[i_input as int]')])
+        og.loop(G0, invariants=[('rounds_so_far', 'v0_@ == flat_vvvv(input@, i_input as int)')])
+        og.at_loop_end(G3, 'proof { assert(point_vals@.take(i_point_vals + 1) =~= point_vals@.take(i_point_vals as int).push(point_vals@[i_point_vals as int])); assert(v0_@ =~= flat_vvvv(input@, i_input as int) + flat_vvv(round@, i_round as int) + flat_vv(matrix@.take(i_matrix as int)) + point_vals@.take(i_point_vals + 1)); }')
+        og.at_loop_end(G2, 'proof { lemma_flat_vv_take(matrix@, i_matrix as int); let pv = matrix@[i_matrix as int]; assert(pv@.take(pv@.len() as int) =~= pv@); assert(v0_@ =~= flat_vvvv(input@, i_input as int) + flat_vvv(round@, i_round as int) + flat_vv(matrix@.take(i_matrix + 1))); }')
+        og.at_loop_end(G1, 'proof { let mx = round@[i_round as int]; assert(mx@.take(mx@.len() as int) =~= mx@); assert(v0_@ =~= flat_vvvv(input@, i_input as int) + flat_vvv(round@, i_round + 1)); }')
+        og.at_loop_end(G0, 'proof { assert(v0_@ =~= flat_vvvv(input@, i_input + 1)); }')
+        for G, pre in ((G3, 'assert(v0_@ =~= flat_vvvv(input@, i_input as int) + flat_vvv(round@, i_round as int) + flat_vv(matrix@.take(i_matrix as int)) + point_vals@.take(0));'),
+                       (G2, 'assert(matrix@.take(0) =~= Seq::<Vec<Fv>>::empty()); assert(v0_@ =~= flat_vvvv(input@, i_input as int) + flat_vvv(round@, i_round as int) + flat_vv(matrix@.take(0)));'),
+                       (G1, 'assert(v0_@ =~= flat_vvvv(input@, i_input as int) + flat_vvv(round@, 0));'), (G0, 'assert(v0_@ =~= flat_vvvv(input@, 0));')):
+            og.before(G, 'proof { ' + pre + ' }')
+    u.text('verus! { pub mod hiding_opened_values { use super::*;\nimpl HidingOpenedValuesTargets {')
+    u.emit(on, vis='pub')
+    u.emit(og, vis='pub')
+    u.text('}\n} }')
 
     u.text('verus! { pub mod query_proof { use super::*;')
     for f in (qn, qv, qp):
